@@ -24,7 +24,7 @@ private:
 public:
     using type = conditional_t<
         is_array_v<U>,
-        remove_extent_t<U>*,
+        add_pointer_t<remove_extent_t<U>>,
         conditional_t<is_function_v<U>, add_pointer_t<U>, remove_cv_t<U>>>;
 };
 
